@@ -62,6 +62,24 @@ def canon_stream(rng, els, strides, nstreams, vcount, nice_position=False):
                 if u == mdl.BITANGENT:
                     vals[3] = rng.choice([0, 255])
                 streams[s][p:p + 4] = bytes(vals)
+    # neighbouring vertices that compare equal as numbers but are not the same bits: a copy of the vertex before it in which one zero
+    # component has the other sign (0.0 == -0.0); each must be written with its own bits
+    if vcount >= 2 and rng.random() < 0.5:
+        fl = [(s, off, t) for (s, off, t, u, _) in els if t in (mdl.SINGLE3, mdl.SINGLE4, mdl.HALF4)]
+        for _ in range(rng.choice([1, 1, 3])):
+            v = rng.randrange(1, vcount)
+            for s in range(nstreams):
+                streams[s][strides[s] * v:strides[s] * (v + 1)] = streams[s][strides[s] * (v - 1):strides[s] * v]
+            if fl:
+                s, off, t = rng.choice(fl)
+                c = rng.randrange(3)
+                a, b = (0, 1) if rng.random() < 0.5 else (1, 0)
+                if t == mdl.HALF4:
+                    struct.pack_into("<H", streams[s], strides[s] * (v - 1) + off + 2 * c, 0x8000 * a)
+                    struct.pack_into("<H", streams[s], strides[s] * v + off + 2 * c, 0x8000 * b)
+                else:
+                    struct.pack_into("<I", streams[s], strides[s] * (v - 1) + off + 4 * c, 0x80000000 * a)
+                    struct.pack_into("<I", streams[s], strides[s] * v + off + 4 * c, 0x80000000 * b)
     return [bytes(x) for x in streams]
 
 
